@@ -289,6 +289,9 @@ func runOrderRT(t *testing.T, line string) string {
 	n, _ := strconv.Atoi(f[3])
 	rounds, _ := strconv.Atoi(f[4])
 	bad, first := 0, ""
+	if mode == "handoff" {
+		return runHandoffRT(client, rounds)
+	}
 	for round := 0; round < rounds; round++ {
 		sock := &rtSock{start: time.Now(), inbound: make(chan knxnet.Service)}
 		var feed func(k int) bool
@@ -706,4 +709,88 @@ func runLostRT(t *testing.T, line string) string {
 		log = append(log, "busy-not-taken 0")
 	}
 	return strings.Join(log, " ; ")
+}
+
+// runHandoffRT: one long-lived client; in every round a telegram arrives while the application is busy,
+// the application comes to take it, and the next telegram arrives at just that moment (a few hundred
+// nanoseconds earlier or later): both must reach the application, in order - a telegram that was accepted
+// must not be left behind in the backlog when the hand-over goroutine retires.
+func runHandoffRT(client string, rounds int) string {
+	sock := &rtSock{start: time.Now(), inbound: make(chan knxnet.Service)}
+	var ch <-chan cemi.Message
+	var feed func(k int) bool
+	push := func(fr knxnet.Service) bool {
+		select {
+		case sock.inbound <- fr:
+			return true
+		case <-time.After(5 * time.Second):
+			return false
+		}
+	}
+	switch client {
+	case "tun":
+		tun, err := knx.VerifNewTunnel(sock, knxnet.TunnelLayerData, knx.TunnelConfig{
+			ResendInterval: 500 * time.Millisecond, ResponseTimeout: 5 * time.Second, HeartbeatInterval: time.Hour})
+		if err != nil {
+			return "connect-failed " + err.Error()
+		}
+		ch = tun.Inbound()
+		feed = func(k int) bool {
+			return push(&knxnet.TunnelReq{Channel: 7, SeqNumber: uint8(k), Payload: payload(k%60000, true)})
+		}
+	case "rtr":
+		r := knx.VerifNewRouter(sock, knx.RouterConfig{})
+		ch = r.Inbound()
+		feed = func(k int) bool { return push(&knxnet.RoutingInd{Payload: payload(k%60000, true)}) }
+	default:
+		return "bad-script"
+	}
+	defer sock.Close()
+	take := make(chan struct{})
+	gotc := make(chan int)
+	go func() {
+		for range take {
+			m, ok := <-ch
+			if !ok {
+				close(gotc)
+				return
+			}
+			gotc <- pidOf(m)
+		}
+	}()
+	defer close(take)
+	rnd := uint32(12345)
+	recv := func() (int, bool) {
+		select {
+		case v, ok := <-gotc:
+			return v, ok
+		case <-time.After(300 * time.Millisecond):
+			return -1, false
+		}
+	}
+	for i := 0; i < rounds; i++ {
+		a, b := 2*i, 2*i+1
+		if !feed(a) {
+			return fmt.Sprintf("rounds=%d bad=1 first=telegram-%d-not-taken-by-the-client", i, a)
+		}
+		take <- struct{}{}
+		rnd = rnd*1664525 + 1013904223
+		for spin := rnd >> 27; spin > 0; spin-- { // 0..31 iterations: a few hundred nanoseconds
+			_ = spin
+		}
+		if !feed(b) {
+			return fmt.Sprintf("rounds=%d bad=1 first=telegram-%d-not-taken-by-the-client", i, b)
+		}
+		v1, ok1 := recv()
+		take <- struct{}{}
+		v2, ok2 := recv()
+		if !ok1 || !ok2 || v1 != a%60000 || v2 != b%60000 {
+			what := fmt.Sprintf("round-%d:accepted-%d,%d:delivered-%d,%d", i, a%60000, b%60000, v1, v2)
+			if !ok2 {
+				what += ":second-telegram-never-delivered"
+			}
+			return fmt.Sprintf("rounds=%d bad=1 first=%s", i+1, what)
+		}
+	}
+	return fmt.Sprintf("rounds=%d bad=0 first=-", rounds)
 }
